@@ -11,7 +11,7 @@ Extraction "model.ml" conv_anchor
   AigerParse.parse_aiger AigerParse.print_aag AigerParse.print_aig AigerParse.wf_b AigerParse.default_map
   DimacsParse.parse_cnf DimacsParse.print_cnf
   TreeParse.p_tree TreeParse.flatten TreeParse.print_tree TreeParse.print_vars TreeParse.print_ctree
-  TreeParse.acyclic_g TreeParse.valid_utf8
+  TreeParse.acyclic_g TreeParse.valid_utf8 TreeParse.wf_vars_b TreeParse.tree_top_ok_b
   NnfParse.parse_nnf NnfParse.print_nnf NnfParse.print_nnf_vo NnfParse.wf_nnf_b
   DimacsSatParse.parse_dimacs DimacsSatParse.print_sat_body DimacsSatParse.print_dimacs_vo
   DimacsSatParse.sat_problem DimacsSatParse.sform_ok_b DimacsSatParse.print_sform.
